@@ -1,0 +1,70 @@
+//go:build verif
+
+package cosmos
+
+// Contracts for the deductive checker in /verif (comment-only; compiled only with -tags verif).
+// C03 (d): EIP-712 signed Cosmos transactions. Lib specs: /verif/specs/c03/63_eip712.spec (uninterpreted encoders / curve
+// operations), 61_accounts.spec (account store).
+
+/*@
+// chainid_ok / chainid_num: chain-id string -> EIP-155 number as computed by types.ParseChainID (verified in this configuration)
+
+// What a nil result of VerifySignature establishes, for account key pubKey and signer data (chain, accNum, sequence):
+//  - the signature data is a single LEGACY_AMINO_JSON signature with an EMPTY Cosmos signature; the tx has >= 1 message;
+//  - the tx carries exactly one extension option, an ExtensionOptionsWeb3Tx `ext`, whose typed-data chain id is the number
+//    parsed from the chain-id string (when that number fits 64 bits);
+//  - h = typed-data hash of the typed data built from (that chain id, the amino sign bytes of
+//    (chain, accNum, sequence, timeout height, fee amount, gas, msgs, memo, tip), the fee payer named in ext);
+//  - for the signature s = ext.FeePayerSig with its recovery byte normalised (27/28 -> 0/1): the key recovered from (h, s)
+//    is the account's key pubKey, its address is the fee payer of ext, and s[:64] verifies over h under pubKey.
+specfunc Eip712Verified(pubKey int, chain string, accNum int, sequence int, sigData int, tx int) bool =
+        typeis(sigData, "*SingleSig") && unbox(sigData, "*SingleSig") != nil
+        && unbox(sigData, "*SingleSig").SignMode == 127 && len(unbox(sigData, "*SingleSig").Signature) == 0
+        && len(tx_msgs(tx)) > 0
+        && chainid_ok(chain)
+        && len(tx_extopts(tx)) == 1 && typeis(any_cached(tx_extopts(tx)[0]), "*Web3Tx")
+        && (0 <= chainid_num(chain) && chainid_num(chain) <= 18446744073709551615 ==> unbox(any_cached(tx_extopts(tx)[0]), "*Web3Tx").TypedDataChainID == chainid_num(chain))
+        && (exists s Bytes :: len(s) == 65
+            && (forall j int :: 0 <= j && j < 64 ==> s[j] == unbox(any_cached(tx_extopts(tx)[0]), "*Web3Tx").FeePayerSig[j])
+            && s[64] == SigNormV(unbox(any_cached(tx_extopts(tx)[0]), "*Web3Tx").FeePayerSig[64])
+            && pk_has_key(pubKey, ec_compressed(ec_recover(Eip712Hash(chain, accNum, sequence, tx), s)))
+            && bytes_eq(key_address(ec_compressed(ec_recover(Eip712Hash(chain, accNum, sequence, tx), s))),
+                          bech32_acc(unbox(any_cached(tx_extopts(tx)[0]), "*Web3Tx").FeePayer))
+            && ec_verify(pk_bytes(pubKey), Eip712Hash(chain, accNum, sequence, tx), s[0:64]))
+specfunc SigNormV(v int) int = ite(v == 27 || v == 28, v - 27, v)
+// the hash that is verified: typed data over the sign bytes of exactly (chain, accNum, sequence, timeout, fee, gas, msgs, memo, tip)
+specfunc Eip712Hash(chain string, accNum int, sequence int, tx int) Bytes =
+        typed_hash(typed_data(unbox(any_cached(tx_extopts(tx)[0]), "*Web3Tx").TypedDataChainID, tx_msgs(tx)[0],
+            sign_bytes(chain, accNum, sequence, tx_timeout(tx), feetx_fee(tx), feetx_gas(tx), "", "", tx_msgs(tx), tx_memo(tx), tx_tip(tx)),
+            bech32_acc(unbox(any_cached(tx_extopts(tx)[0]), "*Web3Tx").FeePayer)))
+
+func VerifySignature
+    params pubKey, signerData, sigData, handler, tx
+    requires nonnil: pubKey != nil && tx != nil
+    // extension options come from the tx decoder: non-nil Any pointers holding non-nil option objects
+    requires wf: forall k int :: 0 <= k && k < len(tx_extopts(tx)) ==> tx_extopts(tx)[k] != nil
+             && (typeis(any_cached(tx_extopts(tx)[k]), "*Web3Tx") ==> unbox(any_cached(tx_extopts(tx)[k]), "*Web3Tx") != nil)
+    requires wf_sig: typeis(sigData, "*SingleSig") ==> unbox(sigData, "*SingleSig") != nil
+    ensures verified: result == nil ==> Eip712Verified(pubKey, signerData.ChainID, signerData.AccountNumber, signerData.Sequence, sigData, tx)
+
+// C03 (d): outside ReCheckTx, `next` runs only for a transaction with exactly one signature and one signer, whose signature
+// entry carries the CURRENT sequence of the signer's stored account, and (unless simulating) for which VerifySignature
+// accepted the account's stored public key with signer data (ctx.ChainID(), the account's number - 0 at genesis -, the
+// account's current sequence): see Eip712Verified. The account store is not written by this decorator.
+func (LegacyEip712SigVerificationDecorator).AnteHandle
+    let sigs = tx_sigs(tx)
+    let signers = tx_signers(tx)
+    let A = ret(GetSignerAcc, 1, 0)
+    requires nonnil: svd.ak != nil && tx != nil
+    requires wf: forall k int :: 0 <= k && k < len(tx_extopts(tx)) ==> tx_extopts(tx)[k] != nil
+             && (typeis(any_cached(tx_extopts(tx)[k]), "*Web3Tx") ==> unbox(any_cached(tx_extopts(tx)[k]), "*Web3Tx") != nil)
+    requires wf_sig: forall k int :: 0 <= k && k < len(sigs) && typeis(sigs[k].Data, "*SingleSig") ==> unbox(sigs[k].Data, "*SingleSig") != nil
+    modifies seq, acc_seq   // seq only through `next`, which is unknown code
+    call next requires one: ctx_isrecheck(ctx) || (len(sigs) == 1 && len(signers) == 1)
+    call next requires sequence: ctx_isrecheck(ctx) || (seq == old(seq) && sigs[0].Sequence == seq[acc_addr(signers[0])])
+    call next requires verified: ctx_isrecheck(ctx) || simulate || (A != nil && acct_addr(A) == acc_addr(signers[0]) && acct_pubkey(A) != nil
+             && Eip712Verified(acct_pubkey(A), ctx_chainid(ctx), ite(ctx_height(ctx) == 0, 0, acct_num(A)), seq[acc_addr(signers[0])], sigs[0].Data, tx))
+    call next requires same: tx == old(tx) && ctx == old(ctx) && simulate == old(simulate)
+    ensures rejected_count: !ctx_isrecheck(ctx) && implements(tx, "github.com/cosmos/cosmos-sdk/x/auth/signing.Tx") && (len(sigs) != 1 || len(signers) != 1) ==> err != nil && newCtx == ctx
+    ensures rejected_seq: !ctx_isrecheck(ctx) && len(sigs) == 1 && len(signers) == 1 && sigs[0].Sequence != old(seq)[acc_addr(signers[0])] ==> err != nil && newCtx == ctx
+@*/
